@@ -145,6 +145,8 @@ var escapeTargets = []string{
 	"../../c2", "{R}", "{R}/l1/l2/l3/outside", "{R}/l1/l2/l3/outside/f", "{R}/l1/l2/l3/dst-evil", "/", "/etc", "/tmp",
 	"{DST}/..", "{DST}/../dst-evil", "{DST}-evil", "{DST}-evil/x", "{DST}X", "a/../..", "./..", "../dst-evil/../dst-evil/x",
 	"../a", "../../a", "../lnk",
+	// for links whose entry name is absolute: up once, then down dst's own absolute path
+	"..{DST}/x", "..{DST}", "../..{DST}/a", "..{DST}/../dst-evil/x",
 }
 
 var insideTargets = []string{
@@ -387,7 +389,7 @@ func scenario(t *rapid.T, rest []tarx.Entry) []tarx.Entry {
 		}
 	}
 	var plant []tarx.Entry
-	switch rapid.IntRange(0, 4).Draw(t, "family") {
+	switch rapid.IntRange(0, 5).Draw(t, "family") {
 	case 0: // relocation: an entry below a link, along a path that really exists elsewhere
 		d, n, l := seg("d"), seg("n"), seg("l")
 		linkName, linkTarget := n+"/"+l, ".."
@@ -408,6 +410,10 @@ func scenario(t *rapid.T, rest []tarx.Entry) []tarx.Entry {
 		l := seg("l")
 		plant = []tarx.Entry{ent(l, "symlink", rapid.SampledFrom([]string{"../dst-evil/x", "../dst-evil", "{DST}-evil/x", "../dstX", "{DST}X"}).Draw(t, "sib")),
 			third(rapid.SampledFrom([]string{l, l + "/new", "zz/../" + l}).Draw(t, "at2"))}
+	case 4: // a link whose entry name is absolute (the leading slash is dropped on creation)
+		name := rapid.SampledFrom([]string{"/", "/", "//", "///"}).Draw(t, "slashes") + rapid.SampledFrom([]string{"l", "a/l", "a/b/l"}).Draw(t, "absname")
+		tgt := rapid.SampledFrom([]string{"..{DST}/x", "..{DST}", "../..{DST}/a", "..{DST}/../dst-evil/x", "{DST}/a", "a", "../a", "../../a", "../../../a"}).Draw(t, "abstarget")
+		plant = []tarx.Entry{ent(name, "symlink", tgt), third(rapid.SampledFrom([]string{"l", "l/x", "a/l", "zz/../l/x"}).Draw(t, "absat"))}
 	case 3: // boundary names: the cleaned name is exactly dst, or exactly dst's parent
 		name := rapid.SampledFrom([]string{"..", "../", "./..", "a/../..", "../.", "/..", ".", "./", "a/..", "../dst", "../dst/", "../dst/a"}).Draw(t, "bname")
 		plant = []tarx.Entry{third(name)}
